@@ -28,6 +28,8 @@ def run(ctx):
            desc='every cookie text over {? & = " a é}: never raises; not validly signed / malformed -> empty; valid -> exactly its items'),
         Ob('expiry', 'ob_expiry', 'now: int, exp: int, has_exp: bool', timeout=tmo, twin_fn='tw_expiry',
            desc='validly signed data is presented iff now <= _expires; _expires itself is removed'),
+        Ob('expiry_seq', 'ob_expiry_seq', '', packed=[('exp', 6), ('t1', 4), ('t2', 4), ('t3', 4)], timeout=tmo, confirm='confirm_expiry_seq',
+           desc='the same validly signed cookie string presented three times while the clock advances (real HMAC/base64/json): every presentation is decided by the clock at that moment'),
         Ob('middleware', 'ob_middleware', 'present: bool, s: str, mac_ok: bool, b64_mode: int, expiry_kind: int, now: int, sets: bool',
            pre=['len(s) <= %d' % (3 if T else 2), '0 <= b64_mode <= 2', '0 <= expiry_kind <= 2', 'all(c in ALPHA for c in s)', '0 <= now <= 10'],
            cells=[('len%d_exp%d_sets%s' % (n, e, st), ['len(s) == %d' % n, 'expiry_kind == %d' % e, 'sets == %s' % st])
